@@ -14,6 +14,7 @@ import (
 	"sync"
 	"sync/atomic"
 	"time"
+	"verif/internal/envwatch"
 )
 
 // ErrInjected is the error an injected fault returns.
@@ -185,7 +186,11 @@ func (ic *Interceptor) Do(name string, blocking bool, do func() error) error {
 	if ic.disabled.Load() {
 		ic.inflight.Add(1)
 		defer ic.inflight.Add(-1)
-		return do()
+		err := do()
+		if err != nil && envwatch.IsEnvErr(err.Error()) {
+			envwatch.Bump()
+		}
+		return err
 	}
 	g := gid()
 	ic.mu.Lock()
@@ -238,6 +243,9 @@ func (ic *Interceptor) Do(name string, blocking bool, do func() error) error {
 		ic.rw.RUnlock()
 	}
 	ic.inflight.Add(-1)
+	if err != nil && envwatch.IsEnvErr(err.Error()) {
+		envwatch.Bump() // the embedded etcd is overloaded: not a failure the properties quantify over
+	}
 	if gate != nil && !blocking {
 		gate.done(st)
 	}
